@@ -118,3 +118,32 @@ MUTANTS["C11"] = [
     ("none-offset-sign", [(PU, "        s_y = d_height / height\n        o_x = -min_x\n        o_y = -min_y\n        return s_x, s_y, o_x, o_y", "        s_y = d_height / height\n        o_x = -min_x\n        o_y = min_y\n        return s_x, s_y, o_x, o_y")]),
     ("doc-height-zero-allowed", [(PU, "    if d_width <= 0 or d_height <= 0:", "    if d_width <= 0 or d_height < 0:")]),
 ]
+
+MUTANTS["C12"] = [
+    ("getLengthInches-mm-2.54", [(PU, "        if unit == 'mm':\n            return float(value) / 25.4\n", "        if unit == 'mm':\n            return float(value) / 2.54\n")]),
+    ("unitsToUserUnits-Q-100", [(PU, "        return float(value) * PX_PER_INCH / 101.6", "        return float(value) * PX_PER_INCH / 100.0")]),
+    ("userUnitToUnits-pc-12", [(PU, "        return float(distance_uu) / (PX_PER_INCH / 6.0)", "        return float(distance_uu) / (PX_PER_INCH / 12.0)")]),
+    ("percent-ignores-reference", [(PU, "        if percent_ref:\n            return float(value) * float(percent_ref) / 100.0\n        return float(value) / 100.0", "        return float(value) / 100.0")]),
+    ("px-per-inch-90", [(PU, "PX_PER_INCH = 96.0", "PX_PER_INCH = 90.0")]),
+    ("getLength-pt-uses-pc", [(PU, "        if unit == 'pt':\n            return float(value) * PX_PER_INCH / 72.0\n        if unit == '%':\n            return float(default)", "        if unit == 'pt':\n            return float(value) * PX_PER_INCH / 6.0\n        if unit == '%':\n            return float(default)")]),
+    ("getLength-percent-no-100", [(PU, "            return float(default) * value / 100.0", "            return float(default) * value")]),
+    ("parse-drops-Q", [(PU, "    elif string[-1:] == 'Q' or string[-1:] == 'q':", "    elif string[-1:] == 'q':")]),
+    ("parse-percent-before-strip", [(PU, "    units = 'px'\n    string = string_to_parse.strip()\n", "    units = 'px'\n    string = string_to_parse.lstrip()\n")]),
+    ("parse-bare-except-returns-zero", [(PU, "    try:\n        value = float(string)\n    except ValueError:\n        return None, None\n\n    return value, units", "    try:\n        value = float(string)\n    except ValueError:\n        return (None, None) if string else (0.0, units)\n\n    return value, units")]),
+    ("inches-px-uses-90", [(PU, "            return float(value) / 96.0", "            return float(value) / 90.0")]),
+    ("inches-accepts-percent", [(PU, "        if unit in ('', 'px'):\n            return float(value) / 96.0", "        if unit in ('', 'px', '%'):\n            return float(value) / 96.0")]),
+    ("back-cm-as-mm", [(PU, "        return float(distance_uu) / (PX_PER_INCH / 2.54)", "        return float(distance_uu) / (PX_PER_INCH / 25.4)")]),
+]
+
+MUTANTS["C18"] = [
+    ("checkLimits-upper-ge", [(PU, "    if value > upper_bound:\n        return upper_bound, True\n    if value < lower_bound:\n        return lower_bound, True", "    if value >= upper_bound:\n        return upper_bound, True\n    if value < lower_bound:\n        return lower_bound, True")]),
+    ("tol-upper-only", [(PU, "        if value < (lower_bound - tolerance):", "        if value < lower_bound:")]),
+    ("tol-ge", [(PU, "        if value > (upper_bound + tolerance):", "        if value >= (upper_bound + tolerance):")]),
+    ("tol-returns-value-within-tol", [(PU, "        return upper_bound, False  # Truncate with no error", "        return value, False  # Truncate with no error")]),
+    ("constrain-minmax-swapped", [(PU, "    return max(lower_bound, min(upper_bound, value))", "    return min(lower_bound, max(upper_bound, value))")]),
+    ("pib-y-uses-xmax", [(PU, "    if y > y_max + tolerance:", "    if y > x_max + tolerance:")]),
+    ("pib-strict-le", [(PU, "    if x < x_min - tolerance:\n        return False", "    if x <= x_min - tolerance:\n        return False")]),
+    ("pib-default-tol-1e-6", [(PU, "def point_in_bounds(point, bounds, tolerance=1e-9):", "def point_in_bounds(point, bounds, tolerance=1e-6):")]),
+    ("tol-lower-returns-upper", [(PU, "            return lower_bound, True  # Truncate & throw error", "            return upper_bound, True  # Truncate & throw error")]),
+    ("tol-relative", [(PU, "        if value > (upper_bound + tolerance):", "        if value > (upper_bound + tolerance) * (1 + 1e-12):")]),
+]
